@@ -32,6 +32,14 @@ def run(c):
         hs = hs + c09.histories_simulated(c, 4, 6000) + c09.histories_simulated(c, 8, 3000)
     # ... and every database that was decoded from a stream and then edited (MC_SigDb!MCPresets: repeated entries in a list / across lists)
     hs = hs + c09.histories_exhaustive(c, 2, load=True) + c09.histories_simulated(c, 4, 150 if c.quick else 3000, load=True)
+    # append-list of a list that overlaps an existing list of the same type and size (a cumulative revocation update), then encode / decode
+    A = lambda t_, o, d: {"op": "append", "t": t_, "o": o, "d": d}
+    LN = lambda t_: {"op": "listnew", "t": t_, "o": "-", "d": "-"}
+    LA = lambda o, d: {"op": "listappend", "t": "-", "o": o, "d": d}
+    AL = {"op": "appendlist", "t": "-", "o": "-", "d": "-"}
+    targeted = [[A("sha256", "o1", "h1"), A("sha256", "o2", "h2"), LN("sha256"), LA("o2", "h2"), LA("o2", "h1"), AL, A("x509", "o1", "c1")],
+               [A("x509", "o1", "c1"), LN("x509"), LA("o1", "c1"), LA("o2", "c2"), AL, LN("x509"), LA("o2", "c2"), AL],
+               [LN("sha256"), LA("o1", "h1"), AL, LN("sha256"), LA("o1", "h1"), LA("o1", "h2"), AL, {"op": "remove", "t": "sha256", "o": "o1", "d": "h1"}]]
     scen = []
     for i, h in enumerate(hs):
         ops = []
@@ -40,6 +48,9 @@ def run(c):
             if op["op"] != "recode":
                 ops.append({"op": "recode", "t": "-", "o": "-", "d": "-"})
         scen.append(c09.with_presets({"sc": i, "ops": ops}))
+    # (the targeted histories build their database without decoding in between - lists as the library's own operations leave them - and are encoded / decoded at the end)
+    for h in targeted:
+        scen.append({"sc": len(scen), "ops": h + [{"op": "recode", "t": "-", "o": "-", "d": "-"}, {"op": "query", "t": "sha256", "o": "o1", "d": "h1"}]})
     res, dth = c.run_worker("sigdb", scen, timeout=1800)
     events, owner = [], []
     for s in scen:
